@@ -23,7 +23,7 @@
 (* A finished program is written as one NDJSON line.                         *)
 EXTENDS FuseRW, Json, IOUtils
 
-CONSTANTS MaxOps, MinOps, Rand, OutFile,
+CONSTANTS MaxOps, MinOps, Rand, OutFile, PreludeId,   \* PreludeId: which prelude (kinds of the first operations of a random program) to use; 0 = none
           MaxDepth,      \* create / mkdir only below parents of depth < MaxDepth
           Offs, Lens, Sizes,
           FileParents    \* TRUE: files the kernel holds are used as parents too (ENOTDIR)
@@ -66,6 +66,16 @@ OpsOfKind(k) ==
     [] k = "rename"    -> RenameOps
     [] k = "renamehit" -> {o \in RenameOps : Hit(o)}
     [] k = "forget"    -> ForgetOps
+    \* (for preludes) a creation that succeeds; the last reference of an entry that was unlinked dropped
+    [] k = "createok"  -> {o \in MakeOps("create") \cup MakeOps("mkdir") : "ok" \in Allowed(o)}
+    [] k = "forgetorphan" -> {o \in ForgetOps : ~Linked(o.n) /\ o.x = cnt[o.n]}
+
+\* prelude 1: entries are created, two of them unlinked and forgotten (their inode numbers wait for re-use), then
+\* entries are created again and looked up
+Prelude == IF PreludeId = 1
+           THEN <<"createok", "createok", "createok", "createok", "unlinkhit", "forgetorphan", "unlinkhit", "forgetorphan",
+                  "createok", "createok", "createok", "lookuphit", "lookuphit", "lookuphit">>
+           ELSE <<>>
 
 \* RandomElement is re-evaluated at every occurrence: bind it once
 Pick(S) == IF Rand THEN {RandomElement(S)} ELSE S
@@ -89,7 +99,7 @@ GNext ==
             IF (r = Len(hist) /\ Len(hist) >= MinOps) \/ Len(hist) >= MaxOps
             THEN Finish
             ELSE \E j \in Pick(1..Len(KindBag)) :
-                   LET S == OpsOfKind(KindBag[j])
+                   LET S == OpsOfKind(IF Len(hist) < Len(Prelude) THEN Prelude[Len(hist) + 1] ELSE KindBag[j])
                    IN \E o \in Pick(IF S = {} THEN AllOps ELSE S) : GStep(o)
      ELSE \/ Finish
           \/ Len(hist) < MaxOps /\ \E o \in AllOps : GStep(o)
